@@ -3,6 +3,7 @@
 Decides two structural necessities: (R1) nothing reachable from the per-request entry points of the shared router handler
 mutates the router / its segment trees; (R2) shutdown ordering facts; (R3) cross-thread entry points of the transport touch
 worker-owned tables only through the queues.  Does not decide absence of all data races nor thread termination."""
+import re
 from .. import cfg, lib, facts
 from ..facts import AnalysisBroken, strip_tmpl
 
@@ -252,7 +253,8 @@ def run(ck):
     cl = [e for h_ in rreg for e in h_.events("call") if is_close(e)]
     ck.require(cl, "close() not found in Transport::removePeer or its helpers")
     tcls = prog.cls("Pistache::Tcp::Transport")
-    keyed = [x["q"] for x in tcls["fields"] if "unordered_map<Fd" in x["type"].replace("Pistache::", "") or "unordered_map<int" in x["type"]]
+    # (canonical type: the member may be declared through an alias such as `using PeerMap = std::unordered_map<Fd, ...>`)
+    keyed = [x["q"] for x in tcls["fields"] if re.match(r"^std::unordered_map<(int|Pistache::Fd|Fd)\b", (x.get("ctype") or x["type"]).replace(" ", ""))]
     keyed = [q for q in keyed if q.rsplit("::", 1)[1] in ("peers", "toWrite")]
     ck.require(len(keyed) >= 2, "descriptor-keyed tables of Transport: %s" % keyed)
     for q in keyed:
